@@ -119,6 +119,11 @@ class Ob(object):
             r, m = self.ex.pc.model()
             return self._add(name, kind, 'failed' if r == z3.sat else 'undecided', {'model': m, 'cond': 'False'})
         gf = list(self.ex.ghost_facts) if kind in ('ghost', 'rank', 'lemma') else []
+        if gf and len(gf) > 12:
+            # first try with the facts that are relevant to the goal only (ground facts sharing symbols with it, closure of
+            # depth 3): nonlinear real queries are decided quickly when they are small.  unsat here is unsat of the full set.
+            if _prove_relevant(self.ex, cond, gf):
+                return self._add(name, kind, 'discharged')
         r, m = self.ex.pc.model(z3.Not(cond), *gf)
         if r == z3.unsat:
             return self._add(name, kind, 'discharged')
@@ -190,6 +195,69 @@ class Ob(object):
 
     def undecided(self, name, kind, why):
         self._add(name, kind, 'undecided', {'reason': why})
+
+
+def _symbols(e, acc=None):
+    acc = set() if acc is None else acc
+    stack = [e]
+    seen = set()
+    while stack:
+        x = stack.pop()
+        i = x.get_id()
+        if i in seen:
+            continue
+        seen.add(i)
+        if z3.is_app(x) and x.decl().kind() == z3.Z3_OP_UNINTERPRETED:
+            acc.add(x.decl().name() if x.num_args() == 0 else str(x))
+        if z3.is_quantifier(x):
+            continue
+        stack.extend(x.children())
+    return acc
+
+
+def _prove_relevant(ex, cond, ghost_facts, depth=3, timeout_ms=8000):
+    pool = [f for f in list(ex.pc.facts) + list(ghost_facts) if not z3.is_quantifier(f) and not _has_quantifier(f)]
+    syms = _symbols(cond)
+    chosen = []
+    rest = [(f, _symbols(f)) for f in pool]
+    for _ in range(depth):
+        nxt = []
+        added = False
+        for f, sy in rest:
+            if sy & syms:
+                chosen.append(f)
+                syms |= sy
+                added = True
+            else:
+                nxt.append((f, sy))
+        rest = nxt
+        if not added:
+            break
+    s = z3.Solver()
+    s.set('timeout', timeout_ms)
+    for f in chosen:
+        s.add(f)
+    s.add(z3.Not(cond))
+    t = time.time()
+    r = s.check()
+    P.STATS['queries'] += 1
+    P.STATS['solver_s'] += time.time() - t
+    return r == z3.unsat
+
+
+def _has_quantifier(e):
+    stack = [e]
+    seen = set()
+    while stack:
+        x = stack.pop()
+        i = x.get_id()
+        if i in seen:
+            continue
+        seen.add(i)
+        if z3.is_quantifier(x):
+            return True
+        stack.extend(x.children())
+    return False
 
 
 def _short(info):
